@@ -1,4 +1,5 @@
 import Driver.Common
+import Driver.CertShow
 import Rpki.Model.Manifest
 import Rpki.Model.Sha
 namespace Driver.C14
@@ -131,6 +132,12 @@ def handle (toks : List String) (impl : String) : Verdict :=
       { model := some want,
         oracle := if impl = want then none else some s!"hash verification must say {want}" }
     | _, _ => badOp "hex"
+  | ["cmsd", ty, h] =>
+    match parseHexN h with
+    | none => badOp "hex"
+    | some b =>
+      { model := some (Driver.CertShow.cmsLine ty b),
+        oracle := if impl = "panic" then some "Manifest::decode or an accessor panicked" else none }
   | _ => badOp "unknown op"
 
 end Driver.C14
